@@ -36,6 +36,7 @@ fn one(ctx: &mut Ctx, env: &Env, rng: &mut Rng, base: &Engine, rv: &RefVoice, de
         1 => -0.0,
         2 => *rng.pick(&[24.0, -24.0, 12.0, -12.0, 1.0, -1.0]),
         3 => rng.irange(-24, 24) as f64,
+        4 => *rng.pick(&[1e-7, -9e-7, 5e-7, -2e-6, 1e-3]),
         _ => rng.uniform(-24.0, 24.0),
     };
     let mut eh = e0.clone();
@@ -49,6 +50,24 @@ fn one(ctx: &mut Ctx, env: &Env, rng: &mut Rng, base: &Engine, rv: &RefVoice, de
             return;
         }
     };
+    // the engine applies the shift to the state means and then generates: the hooked
+    // trajectories equal the public building blocks run stream by stream (this also holds when
+    // the 20 Hz / 20 kHz limit is reached, and at h = 0 where nothing at all is applied)
+    {
+        let want = crate::synth::trajectories_from_public_api(&eh, &labels, &rh.durations);
+        let got = [&rh.spectrum, &rh.lf0, &rh.lpf];
+        for k in 0..nstreams.min(want.len()) {
+            let dev = crate::synth::trajectory_deviation(got[k], &want[k]);
+            if !(dev <= 1e-9) {
+                ctx.violation(
+                    "trajectory-is-not-the-generation-from-the-shifted-state-means",
+                    d(J::obj().set("stream", k).set("deviation", dev)),
+                );
+                return;
+            }
+        }
+        ctx.count("public_api_recomputations", 1.0);
+    }
     // isolation clauses (always)
     if r0.durations != rh.durations {
         ctx.violation("half-tone-changed-durations", d(J::Null));
